@@ -240,6 +240,7 @@ type fnLockInfo struct {
 	Summary    map[string]heldInfo
 	Reports    []lockReport
 	heldAt     map[ssa.Instruction]map[string]int // must-held (intersection over states): key -> mode
+	mayHeldAt  map[ssa.Instruction]map[string]int // may-held (union over states): key -> strongest mode seen
 	keyField   map[string]*types.Var              // lock key -> the lock's field object (nil for non-field locks)
 	keyLock    map[string]*types.Var              // lock key -> lock identity (cond.L folded onto its cond field / embedded RWMutex)
 	Returns    int
@@ -431,6 +432,20 @@ func (le *LockEngine) analyse(fn *ssa.Function) *fnLockInfo {
 		s := it.s.clone()
 		terminated := false
 		for _, ins := range it.b.Instrs {
+			// record may-held (union over the explored states)
+			if fi.mayHeldAt == nil {
+				fi.mayHeldAt = map[ssa.Instruction]map[string]int{}
+			}
+			mh := fi.mayHeldAt[ins]
+			if mh == nil {
+				mh = map[string]int{}
+				fi.mayHeldAt[ins] = mh
+			}
+			for k, v := range s.held {
+				if v.Depth > 0 && v.Mode > mh[k] {
+					mh[k] = v.Mode
+				}
+			}
 			// record must-held
 			cur := fi.heldAt[ins]
 			if cur == nil {
@@ -636,6 +651,12 @@ func condLField(condRecv ssa.Value) *types.Var {
 		}
 	}
 	return nil
+}
+
+// MayHeldAt returns the locks that are held on some explored path reaching ins (key -> strongest mode).
+func (le *LockEngine) MayHeldAt(ins ssa.Instruction) map[string]int {
+	fi := le.Info(ins.Parent())
+	return fi.mayHeldAt[ins]
 }
 
 // HeldAt returns the locks that are held on every explored path reaching ins (key -> mode).
